@@ -71,7 +71,7 @@ fn build(ch: &mut Chooser, fmt: &str) -> Case {
             }
             b.sheets.push(sh);
         }
-        xlsx::write(&b, &xlsx::XEnc { prefix: ch.flag("xlsx.prefix"), ..Default::default() })
+        xlsx::write(&b, &xlsx::XEnc { prefix: ch.flag("xlsx.prefix"), indent: ch.flag("xlsx.indented"), ..Default::default() })
     } else {
         let mut b = biff8::BBook::default();
         for (i, n) in sheets.iter().enumerate() {
